@@ -302,7 +302,3 @@ func printHR(hr *HarnessResult, verbose bool) {
 	}
 }
 
-func cmdCheck(args []string) {
-	fmt.Println("not yet")
-	os.Exit(3)
-}
